@@ -126,7 +126,7 @@ Definition ex_prog : list regop :=
    RAdd MApp Eexc_obj 2].
 Definition ex_desc : desc := {| d_mgrs := [0%nat]; d_cls := 1%nat |}.
 Definition ex_sc (fn : option exk) : scen :=
-  {| sc_create := None; sc_decomp := None; sc_dispatch := None; sc_deser := None; sc_fn := fn;
+  {| sc_recon := None; sc_create := None; sc_decomp := None; sc_dispatch := None; sc_deser := None; sc_fn := fn;
      sc_ser := None; sc_redirect := None; sc_after_on_fault := true; sc_doc_early := false; sc_opaque := false |}.
 Definition ex_run (drv : driver) (sc : scen) (b : beh) :=
   match reg_run world0 ex_prog with
